@@ -152,6 +152,7 @@ def opsOf (ds : DS) (ws : List String) (at_ : Nat) : Option (List Op) :=
   | "O" :: "wait" :: _ => some []
   -- end-to-end tiers: what the server does, at its earliest possible time
   | "O" :: "conn" :: _ => some [.set .r (at_ + ds.ka)]
+  | "O" :: "tconn" :: _ => some []                     -- std http.Server: no nbio deadline before the transfer
   | "O" :: "wsup" :: _ => some [.set .r (at_ + ds.ka)]
   | "O" :: "msg" :: _ => some [.set .r (at_ + ds.ka)]
   | _ => none
